@@ -7,7 +7,15 @@ import re, sys
 pid = sys.argv[1]
 gen = open("/verif/lean/ClusterVerif/Gen/%s.lean" % pid).read()
 body = gen.split("namespace CV.%s.Gen" % pid, 1)[1].rsplit("end CV.%s.Gen" % pid, 1)[0]
-names = re.findall(r"^def (\w+) : List String", body, re.M)
+names = []
+ns = []
+for line in body.splitlines():
+    m = re.match(r"^namespace (\w+)", line)
+    if m: ns.append(m.group(1)); continue
+    m = re.match(r"^end (\w+)", line)
+    if m and ns and ns[-1] == m.group(1): ns.pop(); continue
+    m = re.match(r"^def (\w+) : List String", line)
+    if m: names.append(".".join(ns + [m.group(1)]))
 out = """/-!
 # %s — the source text the hand-written model transcribes (snapshot)
 
@@ -21,5 +29,5 @@ namespace CV.%s.Expected
 end CV.%s.Expected
 """ % (pid, pid, pid, pid, pid, body.rstrip() + "\n", pid)
 open("/verif/lean/ClusterVerif/Model/%sSource.lean" % pid, "w").write(out)
-thms = "\n".join("theorem gen_source_%s : Gen.%s = Expected.%s := rfl" % (n, n, n) for n in names)
+thms = "\n".join("theorem gen_source_%s : Gen.%s = Expected.%s := rfl" % (n.replace(".", "_"), n, n) for n in names)
 print(thms)
